@@ -94,7 +94,11 @@ type ConnPlan struct {
 	conn       net.Conn
 	weClosed   int32
 	peerFirst  int32
+	accepted   int32
 }
+
+// Accepted reports whether a connection was ever handed to this plan.
+func (p *ConnPlan) Accepted() bool { return atomic.LoadInt32(&p.accepted) == 1 }
 
 // PeerInitiated reports whether the replica closed the connection before the
 // master did.
@@ -133,6 +137,7 @@ type Master struct {
 	extra  int32 // connections beyond the plan
 	wg     sync.WaitGroup
 	closed int32
+	conns  []net.Conn
 }
 
 // New starts a master on a loopback port.
@@ -152,6 +157,9 @@ func (m *Master) Addr() string { return m.ln.Addr().String() }
 
 // DSN for the driver.
 func (m *Master) DSN() string { return "u:p@tcp(" + m.Addr() + ")/db" }
+
+// DSNNet is the DSN over a custom registered network name.
+func (m *Master) DSNNet(network string) string { return "u:p@" + network + "(" + m.Addr() + ")/db" }
 
 // Plan appends a connection plan; connections are matched to plans in order.
 func (m *Master) Plan(p *ConnPlan) *ConnPlan {
@@ -181,6 +189,10 @@ func (m *Master) Close() {
 	for _, p := range m.plans {
 		p.Release()
 	}
+	// a replica that leaked its socket would keep a handler waiting forever: force the issue
+	for _, c := range m.conns {
+		c.Close()
+	}
 	m.mu.Unlock()
 	m.wg.Wait()
 }
@@ -193,6 +205,7 @@ func (m *Master) acceptLoop() {
 			return
 		}
 		m.mu.Lock()
+		m.conns = append(m.conns, c)
 		var p *ConnPlan
 		if m.next < len(m.plans) {
 			p = m.plans[m.next]
@@ -204,6 +217,7 @@ func (m *Master) acceptLoop() {
 			c.Close()
 			continue
 		}
+		atomic.StoreInt32(&p.accepted, 1)
 		m.wg.Add(1)
 		go func() {
 			defer m.wg.Done()
